@@ -62,6 +62,8 @@ type CaseE struct {
 	Logs    bool  `json:"logs"`              // SendLogs: agent log forwarding
 	Relay   bool  `json:"relay,omitempty"`   // relay state: socks proxies with real clients, a forwarded host that listens
 	Ops     []OpE `json:"ops"`
+	// one request of one step is served while one dependency of the teamserver fails (fault_test.go)
+	Fault *FaultE `json:"fault,omitempty"`
 }
 
 var srcsE = []string{"outstanding", "completed", "foreign", "never", "zero"}
@@ -205,6 +207,9 @@ func genE(t *rapid.T) CaseE {
 		}
 		c.Ops = append(c.Ops, op)
 	}
+	if !c.Relay && agentfx.Weighted(t, "fault", 3, 1) == 1 {
+		addFaultE(t, &c)
+	}
 	return c
 }
 
@@ -286,6 +291,29 @@ type worldE struct {
 	loot   string
 	base   []map[string]int // per agent: events of a request from it that carries no callback and hands out nothing
 	relay  *relayWorld
+	// fault dimension (fault_test.go)
+	tee       *teeTS      // the real Teamserver object next to the recorder, for faults behind it
+	pending   *faultRun   // the fault of the running step, until the request it is meant for comes
+	armed     *faultRun   // the next request is served under this fault
+	lastFault *faultRun   // the fault the last request was served under
+	fired     []*faultRun // every fault a request was served under
+	replyLost bool        // the reply of the last request did not reach the agent
+}
+
+// ts is the teamserver the case runs on.
+func (w *worldE) ts() agent.TeamServer {
+	if w.tee != nil {
+		return w.tee
+	}
+	return w.rec
+}
+
+// arm puts the step's fault on the next request if that is the request (phase) it was generated for.
+func (w *worldE) arm(phase, stepKind string) {
+	if w.pending != nil && w.pending.f.Phase == phase {
+		w.armed, w.pending = w.pending, nil
+		w.armed.stepKind = stepKind
+	}
 }
 
 // evKey identifies an event for the bookkeeping subtraction.  A relaying hop prints an
@@ -321,7 +349,8 @@ func (w *worldE) post(g int, subs []demonref.Sub) (int, []demonref.Task, bool) {
 		body := (&demonref.Enc{}).Int32(demonref.PivotSmbCmd).Bytes(pkg).B
 		pkg = demonref.Batch(h.ID, 0, []demonref.Sub{{Cmd: demonref.CmdPivot, ReqID: 0, Body: body}}, h.Key, h.IV)
 	}
-	code, resp := w.ep.Serve(pkg)
+	w.lastFault = nil
+	code, resp := w.serve(pkg)
 	if code != 200 {
 		return code, nil, false
 	}
@@ -432,6 +461,39 @@ func checkE0(c CaseE) (viol *core.Violation) {
 		return core.V("harness|fixture", "%v", err)
 	}
 	w.ep = ep
+	if c.Fault.needsTee() {
+		tee, err := newTee(w.rec, root)
+		if err != nil {
+			return core.V("harness|fixture", "%v", err)
+		}
+		defer tsx.CloseTS(tee.real)
+		w.tee = tee
+		ep.H.Teamserver = tee
+	}
+	defer func() {
+		any := false
+		for _, fr := range w.fired {
+			if fr.broken != "" && (viol == nil || !strings.HasPrefix(viol.Sig, "skip|")) {
+				viol = skipE("fault-" + fr.broken)
+			}
+			if fr.fired {
+				any = true
+				lastE.labels[fr.label()] = true
+				if fr.note != "" {
+					lastE.labels["fault-note:"+fr.f.Dep+":"+fr.f.How+":"+fr.note] = true
+				}
+			} else if fr.note != "" {
+				lastE.labels["fault-without-object:"+fr.f.Dep+":"+fr.f.How+":"+fr.note] = true
+			}
+		}
+		if c.Fault != nil {
+			if any {
+				lastE.labels["fault-case"] = true
+			} else {
+				lastE.labels["fault-case:no-request-of-the-step-met-the-fault"] = true
+			}
+		}
+	}()
 	w.relayInit(c.Relay)
 	defer w.relayClose()
 	defer func() {
@@ -502,8 +564,19 @@ func checkE0(c CaseE) (viol *core.Violation) {
 	drain := func(g int) *core.Violation {
 		r := w.root(g)
 		for guard := 0; guard < 64; guard++ {
+			if guard == 0 && w.pending != nil {
+				if queueLen(w.ses[r].A) > 0 {
+					w.arm("drain", "hand-out-with-tasks")
+				} else {
+					w.arm("drain", "check-in-nothing-queued")
+				}
+			}
 			code, tasks, ok := w.post(r, nil)
 			w.rec.Take()
+			if w.replyLost {
+				// the agent never saw this reply: it simply checks in again
+				continue
+			}
 			if code != 200 || !ok {
 				return core.V("harness|handout", "hand-out check-in answered HTTP %d", code)
 			}
@@ -532,8 +605,14 @@ func checkE0(c CaseE) (viol *core.Violation) {
 	sendAs := func(g int, sub demonref.Sub, tolerant bool) (eff []tsx.Event, change string, v *core.Violation) {
 		before, tb := w.snapAll()
 		w.rec.Take()
+		w.arm("send", "callback-request")
 		code, tasks, ok := w.post(g, []demonref.Sub{sub})
 		ev := w.rec.Take()
+		if w.replyLost {
+			// the callback was processed, the (NoJob) reply did not get through
+			after, ta := w.snapAll()
+			return w.effects(g, ev), diffSnaps(before, after, tb, ta), nil
+		}
 		if code != 200 || !ok {
 			return nil, "", core.V("harness|callback-request", "callback request answered HTTP %d (decodable=%v, %d tasks)", code, ok, len(tasks))
 		}
@@ -594,6 +673,7 @@ func checkE0(c CaseE) (viol *core.Violation) {
 	}
 
 	for i, op := range c.Ops {
+		w.pending = nil
 		if i > 0 {
 			if v := afterStep(); v != nil {
 				return v
@@ -603,6 +683,10 @@ func checkE0(c CaseE) (viol *core.Violation) {
 		g := op.Agent % c.Agents
 		m := w.mod[g]
 		ses := w.ses[g]
+		w.pending = nil
+		if c.Fault != nil && i == c.Fault.Step%len(c.Ops) {
+			w.pending = &faultRun{f: *c.Fault, g: g}
+		}
 		switch op.Kind {
 		case "socks":
 			cond := clientConds[op.Variant%len(clientConds)]
@@ -649,7 +733,7 @@ func checkE0(c CaseE) (viol *core.Violation) {
 				had[t.RequestID] = true
 			}
 			msg := map[string]string{}
-			job, err := ses.A.TaskPrepare(int(oc.Cmd), operatorInfo(id, ses.A.NameID, oc, opts), &msg, fmt.Sprintf("client-%d", g), w.rec)
+			job, err := ses.A.TaskPrepare(int(oc.Cmd), operatorInfo(id, ses.A.NameID, oc, opts), &msg, fmt.Sprintf("client-%d", g), w.ts())
 			issued := err == nil && job != nil
 			if issued {
 				if job.RequestID != id {
@@ -708,7 +792,7 @@ func checkE0(c CaseE) (viol *core.Violation) {
 			for _, t := range ses.A.Tasks {
 				had[t.RequestID] = true
 			}
-			job, err := ses.A.TaskPrepare(agent.COMMAND_FS, info, &msg, "client", w.rec)
+			job, err := ses.A.TaskPrepare(agent.COMMAND_FS, info, &msg, "client", w.ts())
 			if err != nil || job == nil || job.RequestID != id {
 				return core.V("harness|upload", "TaskPrepare(fs upload) failed: %v", err)
 			}
@@ -743,6 +827,7 @@ func checkE0(c CaseE) (viol *core.Violation) {
 				lastE.labels["session-msg-with-outstanding-task"] = true
 			}
 			code := 200
+			w.arm("send", "session-message")
 			switch msg {
 			case "plain":
 				code, _, _ = w.post(g, nil)
@@ -754,7 +839,8 @@ func checkE0(c CaseE) (viol *core.Violation) {
 				}
 				init := meta.InitPackage(ses.ID, key, iv)
 				if w.parent[g] < 0 {
-					code, _ = w.ep.Serve(init)
+					w.lastFault = nil
+					code, _ = w.serve(init)
 				} else {
 					lastE.labels["session:smb-reconnect"] = true
 					body := (&demonref.Enc{}).Int32(demonref.PivotSmbCon).Int32(1).Bytes(init).B
@@ -762,7 +848,7 @@ func checkE0(c CaseE) (viol *core.Violation) {
 				}
 			}
 			w.rec.Take()
-			if code != 200 {
+			if code != 200 && !w.replyLost {
 				return core.V("harness|session-message", "%s of agent %d answered HTTP %d", msg, g, code)
 			}
 		case "callback":
@@ -891,6 +977,14 @@ func checkE0(c CaseE) (viol *core.Violation) {
 				return v
 			}
 			had := len(eff) > 0 || change != ""
+			// the fault this callback's own request was served under, if any
+			fr := w.lastFault
+			if fr != nil {
+				fr.stepKind = fr.callbackStep(k)
+				if fr.fired {
+					lastE.labels["callback-under-fault:"+kindClass(k)+"/id-"+src] = true
+				}
+			}
 			via := "direct"
 			if w.parent[g] >= 0 {
 				via = "relayed"
@@ -943,7 +1037,12 @@ func checkE0(c CaseE) (viol *core.Violation) {
 				} else {
 					lastE.labels["id-already-forgotten-by-teamserver"] = true
 				}
-				if k.Final && had {
+				if k.Final && !had && fr != nil && fr.fired && implHas {
+					// HEAD as the model: a dependency that fails while a final callback is processed costs the
+					// file / log line / row / reply, the task is answered all the same
+					lastE.labels["final-callback-under-fault-without-visible-effect"] = true
+				}
+				if k.Final && (had || fr != nil && fr.fired && implHas) {
 					t := m.find(id)
 					t.doneBy = k.Name
 					if t.via == "operator" {
@@ -1028,6 +1127,7 @@ func checkE0(c CaseE) (viol *core.Violation) {
 			}
 		}
 	}
+	w.pending = nil
 	return afterStep()
 }
 
@@ -1139,7 +1239,7 @@ func classifyE(c CaseE) core.Class {
 func TestC05a(t *testing.T) {
 	core.Run(t, core.Spec[CaseE]{
 		Property: "C05", Sub: "a",
-		Rule: fmt.Sprintf("histories of 1-30 operations over a forest of 2-4 agents (roots registered through the real agent endpoint, SMB children linked by a real SMB_CONNECT callback of their parent, depth <= 2; tsx.Recorder as teamserver, private loot tree, SendLogs on in 1/4 of the cases): issue a task to any agent (AddJobToQueue with a fresh request id, one of %d commands; for a child it is wrapped into COMMAND_PIVOT jobs of its ancestors), operator fs-upload (mem-file chunk tasks, direct agents), an operator task request to any agent through the real TaskPrepare with a generated option map, queued like dispatch.go does (%d commands: inline execute with HasCallback true / false / absent - true registers a BofCallbacks entry keyed by the request id -, all flag values, object file and argument sizes 0-599 / 0-39 bytes, each uploaded as mem-file chunk tasks with request ids of their own; dotnet inline execute (assembly as mem-file); sleep, exit, checkin, proc list, screenshot, dotnet list-versions, job list; in about 1/3 of the inline-execute requests and 1/8 of the sleep / exit requests an option is missing or undecodable, so that TaskPrepare refuses the request after it may already have registered the callback entry and queued chunk tasks: such a TaskID was never issued and is probed as id source refused), in 3/4 of the cases followed by the life of that very task: hand-out, 0-2 streamed callbacks with its id, one of the callbacks that end a task of its command (inline execute: ran-ok / could-not-run / exception / symbol-not-found, dotnet: failed, else the command's final kinds) optionally replayed, 1-2 probes with the id just completed; relay job without request id (SOCKS write), hand-out, a session-level message of an agent for its own id (DEMON_INIT again with the same or another key and metadata - for a pivot child a repeated SMB_CONNECT by its parent -, a plain check-in), callback = one of %d well-formed callback kinds (payloads as Package.c builds them) sent by any agent - directly or relayed hop by hop as COMMAND_PIVOT/SMB_COMMAND - carrying an id from {own outstanding, own completed, outstanding at a descendant / at another agent, never issued, 0}, optionally replayed byte for byte. In 1/6 of the cases (label relay-state-case) the history also carries relay state, i.e. what makes the teamserver queue jobs on its own: a socks proxy started by the real operator command (TaskPrepare socks add <free port>) with real loopback clients that do the greeting and ask for a CONNECT (the teamserver queues the connect job, no request id) and are then alive / reset / half-closed when the agent answers; socks kill; a forwarded host that listens and a port nobody listens on for reverse port forwards; and callbacks of %d always-accepted relay kinds (socket connect answer ok / failed, read for the proxy client or - port forward - for the forwarded host which is dialled with the first piece, failed read / write, close, port-forward open / remove, rportfwd add / list / clear, pivot list / connect failed / disconnect of an unlinked id) aimed at the newest or another existing socket or an unknown one, carrying an id from ALL the id sources above. Oracle: (1) a callback whose id was not issued to THAT agent or is completed (kind not socket/pivot, not beacon-output with SendLogs) records nothing beyond the bookkeeping of a body-less request on the same path, leaves every agent's outstanding-id list, session data and the loot tree unchanged - whatever else the teamserver queued for or through that agent; (2) after a callback from the finality table was processed with an outstanding id, the same package again, and any later callback with that id, has no effect; (3) after every always-accepted callback whose id is not outstanding for that agent by the model - and after whatever it made the teamserver do (reply to or close the client, queue a close job, dial) - a non-relay callback (output / sleep) with the same id is refused; (4) after every step of the history, every request id the teamserver lists as outstanding for an agent but that the model never issued to it (or has completed) is probed with an output callback, which must be refused: jobs the teamserver queues on its own make no id acceptable. Non-trivial: a rejected callback of an effectful kind whose id was completed, foreign or a descendant's; distinct = (pivot depth, SendLogs, set of plausible rejected id sources, set of contexts in which id 0 was probed)", len(issueCmds), len(opCmds), len(kinds), len(relayIdx)),
+		Rule: fmt.Sprintf("histories of 1-30 operations over a forest of 2-4 agents (roots registered through the real agent endpoint, SMB children linked by a real SMB_CONNECT callback of their parent, depth <= 2; tsx.Recorder as teamserver, private loot tree, SendLogs on in 1/4 of the cases): issue a task to any agent (AddJobToQueue with a fresh request id, one of %d commands; for a child it is wrapped into COMMAND_PIVOT jobs of its ancestors), operator fs-upload (mem-file chunk tasks, direct agents), an operator task request to any agent through the real TaskPrepare with a generated option map, queued like dispatch.go does (%d commands: inline execute with HasCallback true / false / absent - true registers a BofCallbacks entry keyed by the request id -, all flag values, object file and argument sizes 0-599 / 0-39 bytes, each uploaded as mem-file chunk tasks with request ids of their own; dotnet inline execute (assembly as mem-file); sleep, exit, checkin, proc list, screenshot, dotnet list-versions, job list; in about 1/3 of the inline-execute requests and 1/8 of the sleep / exit requests an option is missing or undecodable, so that TaskPrepare refuses the request after it may already have registered the callback entry and queued chunk tasks: such a TaskID was never issued and is probed as id source refused), in 3/4 of the cases followed by the life of that very task: hand-out, 0-2 streamed callbacks with its id, one of the callbacks that end a task of its command (inline execute: ran-ok / could-not-run / exception / symbol-not-found, dotnet: failed, else the command's final kinds) optionally replayed, 1-2 probes with the id just completed; relay job without request id (SOCKS write), hand-out, a session-level message of an agent for its own id (DEMON_INIT again with the same or another key and metadata - for a pivot child a repeated SMB_CONNECT by its parent -, a plain check-in), callback = one of %d well-formed callback kinds (payloads as Package.c builds them) sent by any agent - directly or relayed hop by hop as COMMAND_PIVOT/SMB_COMMAND - carrying an id from {own outstanding, own completed, outstanding at a descendant / at another agent, never issued, 0}, optionally replayed byte for byte. In 1/6 of the cases (label relay-state-case) the history also carries relay state, i.e. what makes the teamserver queue jobs on its own: a socks proxy started by the real operator command (TaskPrepare socks add <free port>) with real loopback clients that do the greeting and ask for a CONNECT (the teamserver queues the connect job, no request id) and are then alive / reset / half-closed when the agent answers; socks kill; a forwarded host that listens and a port nobody listens on for reverse port forwards; and callbacks of %d always-accepted relay kinds (socket connect answer ok / failed, read for the proxy client or - port forward - for the forwarded host which is dialled with the first piece, failed read / write, close, port-forward open / remove, rportfwd add / list / clear, pivot list / connect failed / disconnect of an unlinked id) aimed at the newest or another existing socket or an unknown one, carrying an id from ALL the id sources above. Oracle: (1) a callback whose id was not issued to THAT agent or is completed (kind not socket/pivot, not beacon-output with SendLogs) records nothing beyond the bookkeeping of a body-less request on the same path, leaves every agent's outstanding-id list, session data and the loot tree unchanged - whatever else the teamserver queued for or through that agent; (2) after a callback from the finality table was processed with an outstanding id, the same package again, and any later callback with that id, has no effect; (3) after every always-accepted callback whose id is not outstanding for that agent by the model - and after whatever it made the teamserver do (reply to or close the client, queue a close job, dial) - a non-relay callback (output / sleep) with the same id is refused; (4) after every step of the history, every request id the teamserver lists as outstanding for an agent but that the model never issued to it (or has completed) is probed with an output callback, which must be refused: jobs the teamserver queues on its own make no id acceptable. Non-trivial: a rejected callback of an effectful kind whose id was completed, foreign or a descendant's; distinct = (pivot depth, SendLogs, set of plausible rejected id sources, set of contexts in which id 0 was probed). FAULT DIMENSION (fault_test.go; 1/4 of the cases without relay state, labels fault:<dependency>:<operation>:<how>@<step>): ONE request of ONE step is served while ONE dependency of the teamserver fails, then the fault is lifted and the history goes on. Dependencies, all failed from outside the code under test: (socket, reply write) the http.ResponseWriter the listener's handler writes its reply to is the fixture's wrapper whose first Write returns ECONNRESET or EPIPE after 0 bytes or after k of them (writer-econnreset / writer-epipe / writer-short-write), or the request travels over a real loopback TCP connection to a net/http server of the harness in front of the same gin engine and the peer resets (SO_LINGER 0) or closes the connection after its request was read and before the handler runs (peer-reset / peer-close; the handler itself sees the write fail when the reply exceeds net/http's 4 KiB buffer - an fs-upload of 4-9 KB is queued along for that - otherwise the reply is lost after the handler returned); (file, loot write) the agents folder / the agent's folder / its Screenshots or Download folder is replaced by a regular file (dir-replaced), is read-only with everything below it (read-only; CAP_DAC_OVERRIDE given up on the locked thread), the process has no descriptor left (no-descriptor: RLIMIT_NOFILE 0 for the request), or the files of the agent's running downloads were closed underneath (descriptor-closed); (file, console log open) the same three folder faults for the console log that events.Demons.DemonOutput appends to; (database, agent update) a second connection installs CREATE TRIGGER .. BEFORE UPDATE ON TS_Agents .. RAISE(FAIL, 'database or disk is full') for the request. The last two run on a tee teamserver: the recorder plus a real server.Teamserver on a private sqlite file that receives AgentConsole / AgentUpdate / AgentAdd / Died / AgentCallbackSize. The faulted request is the first hand-out check-in of the step (hand-out step, or the hand-out a callback / session step starts with) or the step's own request (the one that carries the callback, the session message). In 3/4 of the fault cases the fault sits in a generated life of a task inserted at a generated place of the history: 1-3 tasks issued (bare job / operator path), hand-out, 0-2 ordinary steps, [for loot faults: screenshot, or download open / write(s) / close, or beacon file callbacks with the task's id - one of them under the fault, optionally with an id that is not outstanding], the final callback (optionally replayed), 1-2 probes with the completed id; in 1/4 on any request-sending step of the history. Model from HEAD (verified by experiment): a reply that is not delivered changes nothing - its jobs are off the queue, their ids stay outstanding until their final callback; a loot / console / database failure costs the file / line / row, the callback is processed all the same, and a final callback that the teamserver still held the id for ends its task even when nothing else of it is visible. Oracle unchanged: (1)-(4) under and after every fault", len(issueCmds), len(opCmds), len(kinds), len(relayIdx)),
 		Gen:  genE, Check: checkE, Classify: classifyE,
 		Assumptions: []string{
 			"finality table: a callback kind ends its task only where the Demon handler (payloads/Demon/src/core/Command.c) transmits exactly one package of that kind as its last action and starts nothing that reports later; streaming/asynchronous kinds never complete a task in the model",
@@ -1150,6 +1250,7 @@ func TestC05a(t *testing.T) {
 			"jobs the teamserver queues on its own (socks connect / write / close jobs, the close job after a socks reply that could not be written, the close jobs of socks kill, port-forward write jobs, COMMAND_PIVOT wrappers) carry no request id on the reference tree and reserve none; only what the operator side issues (tasks, and the mem-file chunk tasks TaskPrepare queues for them) is ever outstanding",
 			"relay fixture: the proxy clients' relay goroutines queue their close job asynchronously; the harness waits (bounded) for the jobs the last step must cause before it goes on; a request that is expected to hand out nothing but does hand out a job in a case with proxy clients is a late relay job: the case ends without verdict (counted in cases_without_verdict, label no-verdict:*), as does a case whose proxy could not be started or whose client was not served in time",
 			"inline execute: the reference teamserver ends the request on whichever of RAN_OK / COULD_NO_RUN / EXCEPTION / SYMBOL_NOT_FOUND it processes first (with or without a registered BofCallbacks entry); all four are final in the table, although the Demon sends its closing RAN_OK / COULD_NO_RUN after an EXCEPTION / SYMBOL_NOT_FOUND: that closing package then carries a completed id",
+			"fault dimension: what a failed dependency means is taken from the reference tree - an undelivered reply leaves the handed-out tasks outstanding (and off the queue), a failed loot / console-log / database write is reported or dropped while the callback counts as processed; a case whose fault could not be established or lifted (socket fixture, chmod, capset, setrlimit, trigger) ends without verdict (no-verdict:fault-*); fault cases carry no relay state",
 			"an operator request that TaskPrepare refuses is never queued, so its TaskID was never issued - whatever TaskPrepare registered or queued for it before it found the defect; the mem-file chunk tasks TaskPrepare queues carry random request ids, which the harness reads off the agent's request list right after the call (record on issue), they count as issued to that agent",
 		},
 	})
